@@ -18,7 +18,7 @@ import ast
 from ..index import AnalysisError
 from .. import astq
 from ._c09_prov import (Prov, Chain, NONE, alts, const, is_const, seq_shape, strip_views, interface_positions,
-                        bind_interface, is_clone_of, none_valued, note_base_attrs)
+                        bind_interface, is_clone_of, none_valued, note_base_attrs, mentions, forwarded, analysed)
 
 PIPE = "sktime/forecasting/compose/_pipeline.py"
 ENS = "sktime/forecasting/compose/_ensemble.py"
@@ -148,30 +148,34 @@ def check_chain(ctx, res, construct, value, method, want_rev, init_param, loc, f
         return None
     e = ch.steps[0]
     good = True
-    if strip_views(ch.init) != P(init_param) and not (init_param is None):
-        ie = res.ret_event(ch.init)
-        if init_param == "<forecast>":
-            pass
-        else:
+    init = res.plain(ch.init)
+    if init_param != "<forecast>" and init != P(init_param):
+        if init[0] in ("param", "attr0", "attr@", "const") or not mentions(res, init, P(init_param)):
             ctx.violation("R1", construct + ":init", "the chain does not start from `%s` but from %s" % (init_param, res.fmt(ch.init)), loc)
             good = False
-        _ = ie
+        else:
+            ctx.undecided("R1", construct + ":init", "the chain starts from a value derived from `%s`: %s" % (init_param, res.fmt(ch.init)), loc)
+            return None
     if e.name != method:
         ctx.violation("R1", construct + ":method", "each transformer is applied with `%s`, must be `%s`" % (e.name, method), loc_of(e))
         good = False
     if res.loops_of(e)[-1:] != [ch.loop.id]:
         ctx.undecided("R1", construct, "step call is not directly inside the carrying loop", loc_of(e))
         return None
-    if not e.args or e.args[0] != value:
-        a0 = e.args[0] if e.args else None
-        if a0 is None:
-            a0 = next(iter(e.kwargs.values()), None) if len(e.kwargs) == 1 else None
-        if a0 != value:
-            ctx.violation("R1", construct + ":running", "`%s` is not applied to the running value but to %s" % (e.name, res.fmt(a0)), loc_of(e))
-            good = False
+    a0 = e.args[0] if e.args else (next(iter(e.kwargs.values()), None) if len(e.kwargs) == 1 else None)
+    if a0 != value:
+        if a0 is not None and mentions(res, a0, value):
+            ctx.undecided("R1", construct + ":running", "`%s` is applied to a value derived from the running value: %s" % (e.name, res.fmt(a0)), loc_of(e))
+            return None
+        ctx.violation("R1", construct + ":running", "`%s` is not applied to the running value (output of the previous transformer) but to %s"
+                      % (e.name, res.fmt(a0)), loc_of(e))
+        good = False
     recv = e.recv
     cl = is_clone_of(res, recv)
     if (cl if cl is not None else recv) != tl.transformer:
+        if mentions(res, recv, tl.elem):
+            ctx.undecided("R1", construct + ":receiver", "`%s` is called on %s" % (e.name, res.fmt(recv)), loc_of(e))
+            return None
         ctx.violation("R1", construct + ":receiver", "`%s` is not called on the loop's transformer but on %s" % (e.name, res.fmt(recv)), loc_of(e))
         good = False
     if ch.passthrough != conditional:
@@ -186,7 +190,7 @@ def check_chain(ctx, res, construct, value, method, want_rev, init_param, loc, f
 
 
 def r1_fit(ctx, repo, cls):
-    res = Prov(repo, no_inline=("_has_tag",)).run_method(cls, "fit")
+    res = analysed(ctx, Prov(repo, no_inline=("_has_tag",)).run_method(cls, "fit"))
     C = "TransformedTargetForecaster.fit"
     sig = fsig(repo, "fit")
     fits = [e for e in res.calls("fit", kind=("call",)) if e.target.kind == "attr"]
@@ -195,6 +199,14 @@ def r1_fit(ctx, repo, cls):
         src = is_clone_of(res, e.recv)
         if last_step_component(src if src is not None else e.recv, 1):
             final.append((e, src))
+    if not final:
+        for e in fits:
+            src = is_clone_of(res, e.recv)
+            t = src if src is not None else e.recv
+            if isinstance(t, tuple) and t[0] == "item" and t[2] == ("const", 1) and isinstance(t[1], tuple) and t[1][0] == "item" \
+                    and is_const(t[1][2]) and t[1][2][1] != -1 and step_attr(t[1][1]):
+                ctx.violation("R1", C + ":final-forecaster", "the estimator fitted as forecaster is steps[%r], not the last step" % (t[1][2][1],), loc_of(e))
+                return
     if len(final) != 1:
         ctx.undecided("R1", C + ":final-forecaster", "expected one fit call on the final step's forecaster, found %d" % len(final),
                       ctx.loc(cls.module, cls.methods["fit"]))
@@ -210,8 +222,8 @@ def r1_fit(ctx, repo, cls):
     got = check_chain(ctx, res, C + ":final-forecaster-data", b["y"], "fit_transform", False, "y", loc, fitted_only=False,
                       what="the series the final forecaster is fitted on")
     for p in ("X", "fh"):
-        ctx.check(b.get(p) == P(p), "R1", C + ":forward:" + p, "%s forwarded unchanged to the final forecaster" % p,
-                  "the final forecaster's `%s` is %s, not the caller's `%s`" % (p, res.fmt(b.get(p)), p), loc)
+        forwarded(ctx, res, "R1", C + ":forward:" + p, b.get(p), P(p), "%s forwarded unchanged to the final forecaster" % p,
+                  "the final forecaster's `%s` is not the caller's `%s`" % (p, p), loc)
     unconditional = res.unconditional(ef)
     ctx.check(unconditional, "R1", C + ":final-forecaster:always", "final fit is executed on every path",
               "the final forecaster is fitted only on some paths", loc)
@@ -223,26 +235,46 @@ def r1_fit(ctx, repo, cls):
         ctx.check(cl is not None, "R1", C + ":transformer-clone", "each transformer is a clone of the step",
                   "transformers are fitted without `clone` (constructor arguments are mutated)", loc_of(est))
         st = [e for e in sets if res.loops_of(e)[-1:] == [ch.loop.id]]
-        good = None
+        later = [e for e in res.stores("steps_") if e.id > est.id]
+        key = C + ":store-transformer"
         if len(st) == 1:
             s = st[0]
             v = s.value
-            good = (s.index == tl.index and isinstance(v, tuple) and v[0] == "tuple" and len(v[1]) == 2 and v[1][1] == est.recv
-                    and v[1][0] == tl.name and tl.sl is not None and const(tl.sl[1], 0) in (None, 0) and not tl.rev)
-            ctx.check(good, "R1", C + ":store-transformer", "steps_[i] = (name_i, fitted clone_i)",
-                      "the fitted transformer is not stored at its own position: steps_[%s] = %s" % (res.fmt(s.index), res.fmt(v)), loc_of(s))
+            pair = isinstance(v, tuple) and v[0] == "tuple" and len(v[1]) == 2
+            if not pair:
+                ctx.undecided("R1", key, "steps_[...] receives %s" % res.fmt(v), loc_of(s))
+            elif v[1][1] == tl.transformer or (is_clone_of(res, v[1][1]) == tl.transformer and v[1][1] != est.recv):
+                ctx.violation("R1", key, "steps_[i] receives %s, not the clone that was fitted (later calls use an unfitted transformer)"
+                              % res.fmt(v[1][1]), loc_of(s))
+            elif v[1][1] != est.recv:
+                ctx.undecided("R1", key, "steps_[i] receives %s" % res.fmt(v[1][1]), loc_of(s))
+            elif s.index != tl.index or tl.rev or const(tl.sl[1] if tl.sl else NONE, 0) not in (None, 0):
+                if is_const(s.index) or (isinstance(s.index, tuple) and s.index[0] == "idx") or \
+                        (isinstance(s.index, tuple) and s.index[0] == "binop" and tl.index in s.index[2:] and any(is_const(x) and x[1] for x in s.index[2:])):
+                    ctx.violation("R1", key, "the fitted transformer is stored at position %s, not at its own position" % res.fmt(s.index), loc_of(s))
+                else:
+                    ctx.undecided("R1", key, "cannot relate the store index %s to the loop position" % res.fmt(s.index), loc_of(s))
+            else:
+                ctx.ok("R1", key, "steps_[i] = (name_i, fitted clone_i)", loc_of(s))
+        elif not st and not later:
+            ctx.violation("R1", key, "the fitted transformers are not written back to steps_ (later calls would use unfitted ones)", loc)
         else:
-            ctx.check(None if st else False, "R1", C + ":store-transformer", "",
-                      "the fitted transformers are not written back to steps_ (later calls would use unfitted ones)"
-                      if not st else "several stores into steps_ inside the loop", loc)
+            ctx.undecided("R1", key, "fitted transformers are remembered in a way the rule does not interpret", loc)
     fin = [e for e in sets if not res.loops_of(e) and e.index == ("const", -1)]
+    key = C + ":store-forecaster"
     if len(fin) == 1:
         v = fin[0].value
-        ctx.check(isinstance(v, tuple) and v[0] == "tuple" and len(v[1]) == 2 and v[1][1] == ef.recv and fin[0].id > ef.id - 10**9,
-                  "R1", C + ":store-forecaster", "steps_[-1] = (name, the fitted forecaster)",
-                  "steps_[-1] does not receive the forecaster that was fitted: %s" % res.fmt(v), loc_of(fin[0]))
+        pair = isinstance(v, tuple) and v[0] == "tuple" and len(v[1]) == 2
+        if pair and v[1][1] == ef.recv:
+            ctx.ok("R1", key, "steps_[-1] = (name, the fitted forecaster)", loc_of(fin[0]))
+        elif pair and (last_step_component(v[1][1], 1) or (is_clone_of(res, v[1][1]) is not None and v[1][1] != ef.recv)):
+            ctx.violation("R1", key, "steps_[-1] receives %s, not the forecaster that was fitted" % res.fmt(v[1][1]), loc_of(fin[0]))
+        else:
+            ctx.undecided("R1", key, "steps_[-1] receives %s" % res.fmt(v), loc_of(fin[0]))
+    elif not fin and not [e for e in res.stores("steps_") if e.id > ef.id]:
+        ctx.violation("R1", key, "the fitted forecaster is not stored in steps_[-1] (predict would use the unfitted original)", loc)
     else:
-        ctx.check(None if fin else False, "R1", C + ":store-forecaster", "", "the fitted forecaster is not stored in steps_[-1]", loc)
+        ctx.undecided("R1", key, "the fitted forecaster is remembered in a way the rule does not interpret", loc)
 
 
 def has_tag_fact(res, e, transformer):
@@ -271,7 +303,7 @@ def declared_tags(repo):
 
 
 def r1_predict(ctx, repo, cls):
-    res = Prov(repo, no_inline=("_has_tag",)).run_method(cls, "_predict")
+    res = analysed(ctx, Prov(repo, no_inline=("_has_tag",)).run_method(cls, "_predict"))
     C = "TransformedTargetForecaster._predict"
     fn = repo.lookup_method(cls, "_predict")[1]
     loc0 = ctx.loc(cls.module, fn)
@@ -290,8 +322,11 @@ def r1_predict(ctx, repo, cls):
               "forecast is requested from the constructor's unfitted steps[-1]", loc_of(pe))
     b = pe.bind(fsig(repo, "predict"))
     for p in astq.param_names(fn, skip_self=True):
-        ctx.check(None if b is None else b.get(p) == P(p), "R1", C + ":forecast:forward:" + p, "%s forwarded to the final forecaster" % p,
-                  "final forecaster receives %s for `%s`" % (res.fmt(b.get(p)) if b else "?", p), loc_of(pe))
+        if b is None:
+            ctx.undecided("R1", C + ":forecast:forward:" + p, "cannot bind the predict call", loc_of(pe))
+        else:
+            forwarded(ctx, res, "R1", C + ":forecast:forward:" + p, b.get(p), P(p), "%s forwarded to the final forecaster" % p,
+                      "the final forecaster does not receive the caller's `%s`" % p, loc_of(pe))
     if value == ("ret", pe.id):
         ctx.violation("R1", C + ":inverse-chain", "the forecast is returned in the transformed representation (no inverse transform applied)", loc0)
         return
@@ -332,7 +367,7 @@ def r1_predict(ctx, repo, cls):
 
 
 def r1_update(ctx, repo, cls):
-    res = Prov(repo, no_inline=("_has_tag",)).run_method(cls, "update")
+    res = analysed(ctx, Prov(repo, no_inline=("_has_tag",)).run_method(cls, "update"))
     C = "TransformedTargetForecaster.update"
     fn = repo.lookup_method(cls, "update")[1]
     loc0 = ctx.loc(cls.module, fn)
@@ -388,7 +423,7 @@ def r1_update(ctx, repo, cls):
 
 
 def r1_transform(ctx, repo, cls, method, want_rev):
-    res = Prov(repo, no_inline=("_has_tag",)).run_method(cls, method)
+    res = analysed(ctx, Prov(repo, no_inline=("_has_tag",)).run_method(cls, method))
     C = "TransformedTargetForecaster." + method
     fn = repo.lookup_method(cls, method)[1]
     loc0 = ctx.loc(cls.module, fn)
@@ -402,30 +437,30 @@ def r1_transform(ctx, repo, cls, method, want_rev):
 
 # ------------------------------------------------------------------------------------------ R2 ensemble
 def member_source(t, attr="forecasters"):
-    """Is ``t`` 'the estimator of one element of self.<attr>'?  Returns loop id or None."""
+    """Is ``t`` 'the estimator of one element of self.<attr>'?  Returns (loop id, slice or None) or None."""
     if not isinstance(t, tuple):
         return None
     if t[0] == "elem":
         base, rev, sl = seq_shape(t[1])
-        if sl is None and base == ("item", ("unzip", ("attr0", attr)), ("const", 1)):
-            return t[2]
+        if base == ("item", ("unzip", ("attr0", attr)), ("const", 1)):
+            return t[2], sl
     if t[0] == "item" and t[2] == ("const", 1) and isinstance(t[1], tuple) and t[1][0] == "elem":
         base, rev, sl = seq_shape(t[1][1])
-        if sl is None and base == ("attr0", attr):
-            return t[1][2]
+        if base == ("attr0", attr):
+            return t[1][2], sl
     return None
 
 
 def member_fit_events(res):
-    """fit calls on (clones of) ensemble members: list of (event, cloned?, loop id)."""
+    """fit calls on (clones of) ensemble members: list of (event, cloned?, loop id, slice)."""
     out = []
     for e in res.calls("fit", kind=("call",)):
         if e.target.kind != "attr":
             continue
         src = is_clone_of(res, e.recv)
-        L = member_source(src if src is not None else e.recv)
-        if L is not None:
-            out.append((e, src is not None, L))
+        ms = member_source(src if src is not None else e.recv)
+        if ms is not None:
+            out.append((e, src is not None, ms[0], ms[1]))
     return out
 
 
@@ -454,7 +489,7 @@ def loop_plain(res, lid):
 
 
 def r2_fit(ctx, repo, cls):
-    res = Prov(repo).run_method(cls, "fit")
+    res = analysed(ctx, Prov(repo).run_method(cls, "fit"))
     C = cls.name + ".fit"
     fn = repo.lookup_method(cls, "fit")[1]
     loc0 = ctx.loc(cls.module, fn)
@@ -463,27 +498,46 @@ def r2_fit(ctx, repo, cls):
     if len(mf) != 1:
         ctx.undecided("R2", C + ":members", "expected one member fit site, found %d" % len(mf), loc0)
         return
-    e, cloned, L = mf[0]
+    e, cloned, L, msl = mf[0]
     loc = loc_of(e)
     ctx.check(cloned, "R2", C + ":member-clone", "each member is a clone of the constructor argument",
               "members are fitted without `clone`: the caller's estimators are mutated and shared", loc)
     b = e.bind(sig)
     for p in sig:
-        ctx.check(None if b is None else b.get(p) == P(p), "R2", C + ":member-data:" + p, "members receive the caller's %s" % p,
-                  "members are fitted with %s for `%s`" % (res.fmt(b.get(p)) if b else "?", p), loc)
-    ctx.check(res.unconditional(e, allow_loops=(L,)) and loop_plain(res, L), "R2", C + ":all-members", "every member is fitted on every path",
-              "some members are not fitted (conditional fit or filtered loop)", loc)
+        if b is None:
+            ctx.undecided("R2", C + ":member-data:" + p, "cannot bind the member fit call", loc)
+        else:
+            forwarded(ctx, res, "R2", C + ":member-data:" + p, b.get(p), P(p), "members receive the caller's %s" % p,
+                      "members are not fitted with the caller's `%s`" % p, loc)
+    ctx.check(res.unconditional(e, allow_loops=(L,)) and loop_plain(res, L) and msl is None, "R2", C + ":all-members",
+              "every member is fitted on every path", "some members are not fitted (conditional fit, filtered or sliced loop)", loc)
     stored = res.heap.get("forecasters_")
     fe = fitted_list_event(res, stored) if stored is not None else None
-    ctx.check(fe is e, "R2", C + ":store", "forecasters_ holds the fitted clones", "forecasters_ is %s, not the list of fitted clones"
-              % (res.fmt(stored) if stored is not None else "not assigned"), loc)
+    if fe is e:
+        ctx.ok("R2", C + ":store", "forecasters_ holds the fitted clones", loc)
+    elif stored is None or not mentions(res, stored, ("ret", e.id)) and not mentions(res, stored, e.recv):
+        ctx.violation("R2", C + ":store", "forecasters_ is %s, not the list of fitted clones"
+                      % (res.fmt(stored) if stored is not None else "not assigned"), loc)
+    else:
+        ctx.undecided("R2", C + ":store", "forecasters_ = %s" % res.fmt(stored), loc)
 
 
 AGGS = ("mean", "median", "min", "max")
 
 
+def axis_check(ctx, res, construct, axis, what, loc):
+    """axis must select 'across columns' (one column per member): 1 / "columns"."""
+    if axis in (("const", 1), ("const", "columns")):
+        ctx.ok("R2", construct, "%s across members (axis=1)" % what, loc)
+    elif axis is None or axis in (("const", 0), ("const", "index"), ("const", "rows"), ("const", None)):
+        ctx.violation("R2", construct, "%s with axis=%s: along time instead of across members"
+                      % (what, "default 0" if axis is None else repr(axis[1])), loc)
+    else:
+        ctx.undecided("R2", construct, "%s with axis=%s" % (what, res.fmt(axis)), loc)
+
+
 def r2_predict(ctx, repo, cls):
-    res = Prov(repo).run_method(cls, "_predict")
+    res = analysed(ctx, Prov(repo).run_method(cls, "_predict"))
     C = "EnsembleForecaster._predict"
     fn = repo.lookup_method(cls, "_predict")[1]
     loc0 = ctx.loc(cls.module, fn)
@@ -492,10 +546,7 @@ def r2_predict(ctx, repo, cls):
         ctx.undecided("R2", C + ":concat", "expected one pandas.concat of the member forecasts, found %d" % len(concat), loc0)
         return
     ce = concat[0]
-    axis = ce.arg(1, "axis")
-    ctx.check(axis == ("const", 1), "R2", C + ":concat-axis", "member forecasts are concatenated column-wise (axis=1)",
-              "member forecasts are concatenated with axis=%s (rows), so the aggregate runs over time, not over members"
-              % (const(axis, "default 0") if axis is not None else "default 0"), loc_of(ce))
+    axis_check(ctx, res, C + ":concat-axis", ce.arg(1, "axis"), "member forecasts are concatenated", loc_of(ce))
     objs = ce.arg(0, "objs")
     base, rev, sl = seq_shape(res.as_seq(objs)) if objs is not None else (None, False, None)
     pe = res.ret_event(base[1]) if isinstance(base, tuple) and base[0] == "comp" else None
@@ -509,8 +560,11 @@ def r2_predict(ctx, repo, cls):
               "the forecasts aggregated are not those of all fitted members: iterates %s" % res.fmt(L.iter), loc_of(pe))
     b = pe.bind(fsig(repo, "predict"))
     for p in ("fh", "X"):
-        ctx.check(None if b is None else b.get(p) == P(p), "R2", C + ":members:forward:" + p, "members predict for the caller's %s" % p,
-                  "members receive %s for `%s`" % (res.fmt(b.get(p)) if b else "?", p), loc_of(pe))
+        if b is None:
+            ctx.undecided("R2", C + ":members:forward:" + p, "cannot bind the member predict call", loc_of(pe))
+        else:
+            forwarded(ctx, res, "R2", C + ":members:forward:" + p, b.get(p), P(p), "members predict for the caller's %s" % p,
+                      "members do not predict with the caller's `%s`" % p, loc_of(pe))
     # --- aggregator table
     opt = ("attr0", "aggfunc")
     valid = None
@@ -526,8 +580,8 @@ def r2_predict(ctx, repo, cls):
     table = {}  # option name -> set of operator names applied
     dynamic = False
     bad_shape = []
-    for r in rets:
-        ae = res.ret_event(r.value)
+    for r, a in [(r, a) for r in rets for a in sorted(alts(r.value), key=repr)]:
+        ae = res.ret_event(a)
         op = None
         if ae is not None and ae.target is not None and ae.target.kind == "attr" and ae.recv == ("ret", ce.id):
             op = ae.name
@@ -537,12 +591,13 @@ def r2_predict(ctx, repo, cls):
         if op is None:
             bad_shape.append(r)
             continue
-        ax = ae.arg(0, "axis")
-        ctx.check(ax == ("const", 1), "R2", C + ":aggregate-axis:" + op, "aggregate over members (axis=1)",
-                  "`.%s` aggregates with axis=%s: over time instead of over members" % (op, const(ax, "default 0") if ax is not None else "default 0"),
-                  loc_of(ae))
+        axis_check(ctx, res, C + ":aggregate-axis:" + op, ae.arg(0, "axis"), "`.%s` aggregates" % op, loc_of(ae))
         true_names, false_names, unknown = [], [], []
-        for cond, pol, origin in res.facts(r):
+        seen_f = []
+        for cond, pol, origin in res.facts(ae) + res.facts(r):
+            if (cond, pol) in seen_f:
+                continue
+            seen_f.append((cond, pol))
             if isinstance(cond, tuple) and cond[0] == "cmp" and opt in (cond[2], cond[3]) and cond[1] in ("Eq", "NotEq"):
                 other = cond[3] if cond[2] == opt else cond[2]
                 if is_const(other):
@@ -604,11 +659,24 @@ def r2_predict(ctx, repo, cls):
 
 
 # ------------------------------------------------------------------------------------------ R3 multiplexer
+def _subterms(t):
+    out = set()
+    stack = [t]
+    while stack:
+        x = stack.pop()
+        if isinstance(x, tuple):
+            out.add(x)
+            stack.extend(x)
+        elif isinstance(x, frozenset):
+            stack.extend(x)
+    return out
+
+
 def r3(ctx, repo):
     cls = repo.cls(MUX + ":MultiplexForecaster")
     sel = ("attr0", "selected_forecaster")
     # --- _set_forecaster
-    res = Prov(repo).run_method(cls, "_set_forecaster")
+    res = analysed(ctx, Prov(repo).run_method(cls, "_set_forecaster"))
     C = "MultiplexForecaster._set_forecaster"
     fn = repo.lookup_method(cls, "_set_forecaster")[1]
     loc0 = ctx.loc(cls.module, fn)
@@ -621,6 +689,11 @@ def r3(ctx, repo):
         comp = src if src is not None else s.value
         ok_shape = (isinstance(comp, tuple) and comp[0] == "item" and comp[2] == ("const", 1) and isinstance(comp[1], tuple)
                     and comp[1][0] == "elem" and seq_shape(comp[1][1]) == (("attr0", "forecasters"), False, None))
+        if not ok_shape and isinstance(comp, tuple) and comp[0] == "item" and comp[2] == sel and \
+                comp[1] == ("pure", "dict", (("attr0", "forecasters"),), ()):
+            ctx.check(src is not None, "R3", C + ":clone", "the selected component is cloned", "the selected component is used without `clone`", loc)
+            ctx.ok("R3", C + ":selected-by-name", "clones dict(forecasters)[selected_forecaster]", loc)
+            continue
         if not ok_shape:
             if isinstance(comp, tuple) and comp[0] == "item" and isinstance(comp[1], tuple) and comp[1][0] == "item" \
                     and seq_shape(comp[1][1])[0] == ("attr0", "forecasters") and is_const(comp[1][2]):
@@ -636,12 +709,14 @@ def r3(ctx, repo):
         for cond, pol, origin in res.facts(s):
             if isinstance(cond, tuple) and cond[0] == "cmp" and {cond[2], cond[3]} == {sel, name} and cond[1] in ("Eq", "NotEq"):
                 match.append((cond[1] == "Eq") == pol)
-            elif isinstance(cond, tuple) and cond[0] == "cmp" and {cond[2], cond[3]} == {sel, NONE} and \
-                    ((cond[1] == "IsNot") == pol):
+            elif isinstance(cond, tuple) and cond[0] == "cmp" and {cond[2], cond[3]} == {sel, NONE} and cond[1] in ("Is", "IsNot"):
+                if (cond[1] == "IsNot") != pol:
+                    match.append(False)
                 continue
             else:
                 other.append(cond)
-        if other:
+        mentions_sel = any(sel in _subterms(o) for o in other)
+        if other and (match or mentions_sel):
             ctx.undecided("R3", C + ":selected-by-name", "selection guarded by unknown conditions: %s" % [res.fmt(o) for o in other], loc)
         elif not match:
             ctx.violation("R3", C + ":selected-by-name", "a component is chosen without comparing its name with `selected_forecaster` "
@@ -654,7 +729,7 @@ def r3(ctx, repo):
     ctx.check(bool(chk) and all(res.dominates(chk[0], s) for s in stores), "R3", C + ":check-first",
               "_check_selected_forecaster precedes the selection", "the selection is not preceded by _check_selected_forecaster on every path", loc0)
     # --- _check_selected_forecaster rejects unknown names
-    res2 = Prov(repo).run_method(cls, "_check_selected_forecaster")
+    res2 = analysed(ctx, Prov(repo).run_method(cls, "_check_selected_forecaster"))
     fn2 = repo.lookup_method(cls, "_check_selected_forecaster")[1]
     good = False
     for r in res2.of_kind("raise"):
@@ -671,7 +746,7 @@ def r3(ctx, repo):
               "raises unless selected_forecaster is one of the component names",
               "does not reject a `selected_forecaster` that names no component", ctx.loc(cls.module, fn2))
     # --- fit delegates to the freshly selected clone
-    res3 = Prov(repo).run_method(cls, "fit")
+    res3 = analysed(ctx, Prov(repo).run_method(cls, "fit"))
     fn3 = repo.lookup_method(cls, "fit")[1]
     C3 = "MultiplexForecaster.fit"
     fits = [e for e in res3.calls("fit", kind=("call",)) if e.target.kind == "attr"]
@@ -686,11 +761,14 @@ def r3(ctx, repo):
                   "fit is not delegated to the freshly selected component (receiver %s)" % res3.fmt(e.recv), loc_of(e))
         b = e.bind(fsig(repo, "fit"))
         for p in ("y", "X", "fh"):
-            ctx.check(None if b is None else b.get(p) == P(p), "R3", C3 + ":forward:" + p, "%s forwarded" % p,
-                      "selected forecaster is fitted with %s for `%s`" % (res3.fmt(b.get(p)) if b else "?", p), loc_of(e))
+            if b is None:
+                ctx.undecided("R3", C3 + ":forward:" + p, "cannot bind the inner fit call", loc_of(e))
+            else:
+                forwarded(ctx, res3, "R3", C3 + ":forward:" + p, b.get(p), P(p), "%s forwarded" % p,
+                          "the selected forecaster is not fitted with the caller's `%s`" % p, loc_of(e))
     # --- _predict / update delegate with all arguments
     for method in ("_predict", "update"):
-        r = Prov(repo).run_method(cls, method)
+        r = analysed(ctx, Prov(repo).run_method(cls, method))
         fnm = repo.lookup_method(cls, method)[1]
         inner = "predict" if method == "_predict" else "update"
         Cm = "MultiplexForecaster." + method
@@ -704,8 +782,11 @@ def r3(ctx, repo):
                   "%s does not (always) delegate to the selected forecaster: receiver %s" % (method, r.fmt(e.recv)), loc_of(e))
         b = e.bind(fsig(repo, inner))
         for p in astq.param_names(fnm, skip_self=True):
-            ctx.check(None if b is None else b.get(p) == P(p), "R3", Cm + ":forward:" + p, "%s forwarded" % p,
-                      "selected forecaster receives %s for `%s`" % (r.fmt(b.get(p)) if b else "?", p), loc_of(e))
+            if b is None:
+                ctx.undecided("R3", Cm + ":forward:" + p, "cannot bind the inner %s call" % inner, loc_of(e))
+            else:
+                forwarded(ctx, r, "R3", Cm + ":forward:" + p, b.get(p), P(p), "%s forwarded" % p,
+                          "the selected forecaster does not receive the caller's `%s`" % p, loc_of(e))
         if method == "_predict":
             rv = [v for v, _ in r.returns]
             ctx.check(rv == [("ret", e.id)], "R3", Cm + ":result", "returns the selected forecaster's forecast unchanged",
@@ -715,7 +796,7 @@ def r3(ctx, repo):
 # ------------------------------------------------------------------------------------------ R4 stacking
 def r4(ctx, repo):
     cls = repo.cls(STACK + ":StackingForecaster")
-    res = Prov(repo).run_method(cls, "fit")
+    res = analysed(ctx, Prov(repo).run_method(cls, "fit"))
     fn = repo.lookup_method(cls, "fit")[1]
     C = "StackingForecaster.fit"
     loc0 = ctx.loc(cls.module, fn)
@@ -766,7 +847,9 @@ def r4(ctx, repo):
         ctx.undecided("R4", C + ":order", "expected two member-fit sites (hold-out fit, full refit), found %d" % len(mf), loc0)
         return
     by_data = {}
-    for e, cloned, L in mf:
+    for e, cloned, L, msl in mf:
+        if msl is not None:
+            cloned = False
         b = e.bind(sig)
         if b is None:
             ctx.undecided("R4", C + ":members", "cannot bind a member fit call", loc_of(e))
@@ -776,17 +859,25 @@ def r4(ctx, repo):
     e_full = by_data.get(y, [])
     if len(e_train) != 1 or len(e_full) != 1:
         got = [res.fmt(k) for k in by_data]
-        ctx.violation("R4", C + ":members-train-window", "members must be fitted once on y.iloc[train_window] and once on the full y; "
-                      "they are fitted on %s" % got, loc_of(mf[0][0]), witness={"train": res.fmt(train)})
+        w_train, w_test = ("item", W, ("const", 0)), ("item", W, ("const", 1))
+        others = [k for k in by_data if k not in (train, y)]
+        exact_wrong = (not others) or any(k == test or (k is not None and mentions(res, k, w_test) and not mentions(res, k, w_train)) for k in others)
+        if exact_wrong:
+            ctx.violation("R4", C + ":members-train-window", "members must be fitted once on y.iloc[train_window] and once on the full y; "
+                          "they are fitted on %s" % got, loc_of(mf[0][0]), witness={"train": res.fmt(train)})
+        else:
+            ctx.undecided("R4", C + ":members-train-window", "cannot interpret the data the members are fitted on: %s" % got, loc_of(mf[0][0]))
         return
     et, cl_t, Lt, bt = e_train[0]
     efull, cl_f, Lf, bf = e_full[0]
     ctx.ok("R4", C + ":members-train-window", "members fitted on y.iloc[train_window] of the single split", loc_of(et))
     for tag, (e, cl, L, b) in (("hold-out", e_train[0]), ("refit", e_full[0])):
         ctx.check(cl and res.unconditional(e, allow_loops=(L,)) and loop_plain(res, L), "R4", C + ":members:%s:clones" % tag,
-                  "every member is fitted as a clone", "members of the %s fit are not all fitted as clones" % tag, loc_of(e))
-        ctx.check(b.get("fh") in fh_terms, "R4", C + ":members:%s:fh" % tag, "members are fitted for the forecaster's horizon",
-                  "members are fitted with fh=%s" % res.fmt(b.get("fh")), loc_of(e))
+                  "every member is fitted as a clone", "in the %s fit not every member is fitted as a clone" % tag, loc_of(e))
+        mfh = b.get("fh")
+        ctx.check(True if (mfh in fh_terms or mfh == P("fh")) else (False if mfh in (None, NONE) or is_const(mfh) else None),
+                  "R4", C + ":members:%s:fh" % tag, "members are fitted for the forecaster's horizon",
+                  "members are fitted with fh=%s" % res.fmt(mfh), loc_of(e))
     # --- member forecasts used as meta features
     reg = [e for e in res.calls("fit", kind=("call",)) if e.target.kind == "attr" and e not in (et, efull)]
     reg = [e for e in reg if (is_clone_of(res, e.recv) or e.recv) in (("attr0", "final_regressor"),)]
@@ -800,8 +891,16 @@ def r4(ctx, repo):
               "final_regressor_ is %s, not the regressor that was fitted" % res.fmt(res.heap.get("final_regressor_")), loc_of(er))
     Xm = er.arg(0, "X")
     ym = er.arg(1, "y")
-    ctx.check(strip_views(ym) == test if ym is not None else None, "R4", C + ":meta-target", "meta target = y.iloc[test_window] of the same split",
-              "meta-regressor target is %s, not the held-out window" % res.fmt(ym), loc_of(er), witness={"expected": res.fmt(test)})
+    w_train, w_test = ("item", W, ("const", 0)), ("item", W, ("const", 1))
+    if ym is not None and strip_views(ym) == test:
+        ctx.ok("R4", C + ":meta-target", "meta target = y.iloc[test_window] of the same split", loc_of(er))
+    elif ym is not None and mentions(res, ym, w_train):
+        ctx.violation("R4", C + ":meta-target", "the meta-regressor's target is taken from the training window: %s" % res.fmt(ym), loc_of(er),
+                      witness={"expected": res.fmt(test)})
+    elif ym is not None and (strip_views(ym) == y or strip_views(ym) in (("attr0", "_y"),)):
+        ctx.violation("R4", C + ":meta-target", "the meta-regressor's target is the whole series, not the held-out window", loc_of(er))
+    else:
+        ctx.undecided("R4", C + ":meta-target", "meta-regressor target is %s" % res.fmt(ym), loc_of(er))
     stack = res.ret_event(Xm)
     pe = None
     src_fit = None
@@ -813,6 +912,11 @@ def r4(ctx, repo):
                 src_fit = fitted_list_event(res, pe.recv[1])
                 if not loop_plain(res, base[2]):
                     src_fit = None
+    if pe is not None and pe.name == "predict" and isinstance(pe.recv, tuple) and pe.recv[0] == "elem" and src_fit is None \
+            and seq_shape(pe.recv[1])[0] == ("attr0", "forecasters_"):
+        ctx.violation("R4", C + ":meta-features", "the member forecasts used as meta features are requested before the members are fitted on the "
+                      "training window (they come from whatever forecasters_ held before this fit)", loc_of(pe))
+        return
     if pe is None or pe.name != "predict" or src_fit is None:
         ctx.undecided("R4", C + ":meta-features", "meta features are not column-stacked member forecasts: %s" % res.fmt(Xm), loc_of(er))
         return
@@ -834,6 +938,43 @@ def r4(ctx, repo):
     ctx.check(fitted_list_event(res, res.heap.get("forecasters_")) is efull, "R4", C + ":refit-full",
               "after fit the members are those refitted on the full series",
               "after fit, forecasters_ are not the members refitted on the full y", loc_of(efull))
+    # --- _predict: the same feature layout, from all fitted members, through the fitted meta-regressor
+    pres = analysed(ctx, Prov(repo).run_method(cls, "_predict"))
+    pfn = repo.lookup_method(cls, "_predict")[1]
+    C2 = "StackingForecaster._predict"
+    ploc = ctx.loc(cls.module, pfn)
+    regp = [e for e in pres.calls("predict", kind=("call",)) if e.target.kind == "attr" and isinstance(e.recv, tuple)
+            and e.recv[0] in ("attr0", "attr@") and e.recv[1] in ("final_regressor_", "final_regressor")]
+    if not regp:
+        ctx.violation("R4", C2 + ":meta-regressor", "the forecast is not produced by the meta-regressor (no predict call on final_regressor_)", ploc)
+    elif len(regp) != 1:
+        ctx.undecided("R4", C2 + ":meta-regressor", "expected one predict call on the meta-regressor, found %d" % len(regp), ploc)
+    else:
+        rp = regp[0]
+        ctx.check(rp.recv[1] == "final_regressor_", "R4", C2 + ":meta-regressor", "forecasts come from the fitted final_regressor_",
+                  "the unfitted constructor argument `final_regressor` is asked to predict", loc_of(rp))
+        pst = pres.ret_event(rp.arg(0, "X"))
+        good = None
+        if pst is not None and pst.target is not None and pst.target.kind == "ext" and pst.args:
+            if pst.target.ext != stack.target.ext:
+                ctx.violation("R4", C2 + ":feature-layout", "features are built with %s at predict time but with %s when the meta-regressor was fitted"
+                              % (pst.target.ext, stack.target.ext), loc_of(pst))
+            else:
+                base, rev, sl = seq_shape(pres.as_seq(pst.args[0]))
+                mp = pres.ret_event(base[1]) if isinstance(base, tuple) and base[0] == "comp" else None
+                if mp is not None and mp.name == "predict" and isinstance(mp.recv, tuple) and mp.recv[0] == "elem":
+                    mb, mrev, msl = seq_shape(mp.recv[1])
+                    good = (mb == ("attr0", "forecasters_") and msl is None and sl is None and not rev and not mrev and loop_plain(pres, base[2]))
+                    ctx.check(good, "R4", C2 + ":feature-layout", "one column per fitted member, in member order (as at fit time)",
+                              "predict-time features are not the forecasts of all fitted members in member order: %s" % pres.fmt(mp.recv[1]), loc_of(mp))
+                else:
+                    ctx.undecided("R4", C2 + ":feature-layout", "predict-time features: %s" % pres.fmt(pst.args[0]), loc_of(pst))
+        else:
+            ctx.undecided("R4", C2 + ":feature-layout", "meta-regressor input is %s" % pres.fmt(rp.arg(0, "X")), loc_of(rp))
+        rv = [v for v, _ in pres.returns]
+        ok_ret = len(rv) == 1 and mentions(pres, rv[0], ("ret", rp.id))
+        ctx.check(ok_ret, "R4", C2 + ":result", "the forecast is built from the meta-regressor's prediction",
+                  "the returned forecast does not come from the meta-regressor: %s" % [pres.fmt(v) for v in rv], ploc)
     # information: argument-role slip in _predict_forecasters(X)
     for e in res.calls("_predict_forecasters", kind=("inline",)):
         if e.bound and e.bound.get("fh") == P("X"):
@@ -869,6 +1010,6 @@ def run(ctx):
     r3(ctx, repo)
     r4(ctx, repo)
     ctx.floor("R1", 30)
-    ctx.floor("R2", 20)
-    ctx.floor("R3", 15)
-    ctx.floor("R4", 14)
+    ctx.floor("R2", 25)
+    ctx.floor("R3", 18)
+    ctx.floor("R4", 18)
